@@ -3127,6 +3127,21 @@ func (fr *Frame) call(st *State, x *ssa.Call) bool {
 		r := fmt.Sprintf("(sindex %s %s)", sv.T, sep.T)
 		setRes(Val{r, x.Type()})
 		return true
+	case "strings.LastIndex", "strings.LastIndexAny", "strings.IndexAny", "strings.IndexByte", "strings.LastIndexByte", "strings.IndexRune":
+		// where the match is, is not modelled: -1, or an offset at which the needle (one byte at least for the *Any /
+		// *Byte / *Rune forms) fits inside the string
+		sv := fr.val(x.Call.Args[0])
+		r := c.fresh("found", "Int")
+		need := "1"
+		if full == "strings.LastIndex" {
+			need = fmt.Sprintf("(slen %s)", fr.val(x.Call.Args[1]).T)
+		}
+		fr.assume(st, fmt.Sprintf("(and (>= %s (- 1)) (=> (>= %s 0) (<= (+ %s %s) (slen %s))))", r, r, r, need, sv.T))
+		if full != "strings.LastIndex" {
+			fr.assume(st, fmt.Sprintf("(< %s (slen %s))", r, sv.T))
+		}
+		setRes(Val{r, x.Type()})
+		return true
 	case "strings.HasPrefix":
 		setRes(Val{fmt.Sprintf("(hasprefix %s %s)", fr.val(x.Call.Args[0]).T, fr.val(x.Call.Args[1]).T), x.Type()})
 		return true
